@@ -34,6 +34,8 @@ def term_symbols(t, acc=None):
 
 
 def cmp_sym(term, expr, rtol=1e-9):
+    if isinstance(expr, (int, float, complex, np.number)) and not isinstance(expr, (bool, np.bool_)):
+        expr = sym.sympify(complex(expr) if isinstance(expr, (complex, np.complexfloating)) else float(expr))   # a constant is an expression too
     if not isinstance(expr, sym.Expr):
         return "expected a symbolic expression, got %r" % (expr,)
     names = term_symbols(term)
